@@ -316,7 +316,13 @@ class IncludeIpsNode(NodeProtocol):
                 block_addr = (block_addr_bytes[0] << 16) | block_addr_bytes[1]
                 block_size_word = struct.unpack(">H", ips_file.read(2))
                 block_size = block_size_word[0]
-                block = ips_file.read(block_size)
+                if block_size == 0:
+                    # run-length record: 2-byte count, then the byte to repeat
+                    (run_length,) = struct.unpack(">H", ips_file.read(2))
+                    (run_value,) = struct.unpack("B", ips_file.read(1))
+                    block = bytes([run_value]) * run_length
+                else:
+                    block = ips_file.read(block_size)
 
                 if self.delta is not None:
                     block_addr += self.delta
